@@ -294,6 +294,25 @@ let handle (toks : string list) : string =
             (d', (show d' ^ (if wrote_through m s d then "!" else "")) :: acc)
         | _ -> failwith "lk step") (dent dinit, []) steps in
       String.concat "," (List.rev outs)
+  | ["XA"; c0; hist] ->
+      (* extended attributes of one file: ops ss:k:v sd:k sw:c ds:k:v dd:k y:<x>:<big>; prints the destination after every run *)
+      let n t = n_of_int (int_of_string t) in
+      let names = List.map n_of_int [1; 2; 3; 4] in
+      let show st = (match st.xs_dst with
+        | None -> "absent"
+        | Some d -> Printf.sprintf "c=%d a=%s" (int_of_n d.xf_content)
+            (String.concat ";" (List.filter_map (fun x -> x) (List.map2 (fun k v -> match v with Some v -> Some (Printf.sprintf "%d:%d" (int_of_n k) (int_of_n v)) | None -> None)
+               names (observe_attrs names d.xf_attrs))))) in
+      let (_, outs) = List.fold_left (fun (st, acc) o ->
+        match String.split_on_char ':' o with
+        | ["ss"; k; v] -> (xstep true st (SrcSet (n k, n v)), acc)
+        | ["sd"; k] -> (xstep true st (SrcDel (n k)), acc)
+        | ["sw"; c] -> (xstep true st (SrcWrite (n c)), acc)
+        | ["ds"; k; v] -> (xstep true st (DstSet (n k, n v)), acc)
+        | ["dd"; k] -> (xstep true st (DstDel (n k)), acc)
+        | ["y"; x; big] -> let st' = xstep true st (XSync ((x = "1"), (big = "1"))) in (st', show st' :: acc)
+        | _ -> failwith "xa op") (xinit (n c0), []) (String.split_on_char ',' hist) in
+      String.concat " | " (List.rev outs)
   | ["TN"; name] ->
       let n = List.map n_of_int (raw_of_hex name) in
       let out = temp_name n in
